@@ -1,1 +1,35 @@
--- stub: no theorems of C02 yet
+import WmModel.Props.C02
+import WmModel.Props.C02Tie
+import WmModel.Props.C02Inflight
+#print axioms Wm.Handle.handler_called_first_once
+#print axioms Wm.Handle.settles_exactly_once
+#print axioms Wm.Handle.settle_is_last_before_done
+#print axioms Wm.Handle.ack_iff
+#print axioms Wm.Handle.nack_iff
+#print axioms Wm.Handle.not_ack_and_nack
+#print axioms Wm.Handle.nack_on_error
+#print axioms Wm.Handle.nack_on_panic
+#print axioms Wm.Handle.nack_on_publish_failure
+#print axioms Wm.Handle.nopub_outputs_nack
+#print axioms Wm.Handle.publish_before_ack
+#print axioms Wm.Handle.publish_before_ack_idx
+#print axioms Wm.Handle.no_publish_on_error
+#print axioms Wm.Handle.no_publish_on_panic
+#print axioms Wm.Handle.publish_effects
+#print axioms Wm.Handle.publish_at_most_once_in_order
+#print axioms Wm.Handle.no_publish_when_no_outputs
+#print axioms Wm.Handle.always_settled
+#print axioms Wm.Handle.self_settlement_wins
+#print axioms Wm.Handle.final_settlement
+#print axioms Wm.Handle.state_inside_publish
+#print axioms Wm.GoHandle.handle_skeleton_eq_model
+#print axioms Wm.GoHandle.publish_skeleton_eq_model
+#print axioms Wm.GoHandle.skeleton_defers
+#print axioms Wm.Handle.proj_interleave
+#print axioms Wm.Handle.inflight_independent
+#print axioms Wm.Handle.inflight_settles_exactly_once
+#print axioms Wm.Handle.inflight_publish_before_ack
+#print axioms Wm.Handle.inflight_ack_iff
+#print axioms Wm.Handle.inflight_self_settlement_wins
+#print axioms Wm.Handle.chain_pass_id
+#print axioms Wm.Handle.chain_outs
